@@ -14,6 +14,9 @@
 (*     get / get_state = one [S] (load; creates the default row if missing)                       *)
 (*     set_state / clear = one [S]                                                                *)
 (*     set(path, v) = edit_state = two [S]: load, then _save_state() on a fresh _connect()        *)
+(*     create_state_store(other run, serialized_state = this run's sqlite reference) followed by  *)
+(*       get_state = two [S]: _copy_state_from_run (INSERT .. SELECT), then the load ("st_seed":  *)
+(*       a new run continued from a previous run's state)                                         *)
 (*                                                                                                *)
 (* Dev_StateStoreClosesShared (TRUE = code today): an [S] use closes the shared connection, so     *)
 (* every later use of it -- by any store operation -- raises ProgrammingError ("Cannot operate on  *)
@@ -52,11 +55,12 @@ Sem(op, d) ==
     [] op.k = "st_set" -> [d |-> [d EXCEPT !.row = TRUE, !.st[op.a] = op.v], r |-> "ok"]
     [] op.k = "st_set_state" -> [d |-> [d EXCEPT !.row = TRUE, !.st = [k \in Keys |-> IF k = op.a THEN op.v ELSE 0]], r |-> "ok"]
     [] op.k = "st_clear" -> [d |-> [d EXCEPT !.row = TRUE, !.st = [k \in Keys |-> 0]], r |-> "ok"]
+    [] op.k = "st_seed" -> [d |-> d, r |-> StStr(d.st)]         \* the seeded run's state = this run's state (a copy)
 
-IsState(op) == op.k \in {"st_get", "st_get_state", "st_set", "st_set_state", "st_clear"}
-Uses(op) == IF op.k = "st_set" THEN 2 ELSE 1          \* number of times the connection is fetched
+IsState(op) == op.k \in {"st_get", "st_get_state", "st_set", "st_set_state", "st_clear", "st_seed"}
+Uses(op) == IF op.k \in {"st_set", "st_seed"} THEN 2 ELSE 1          \* number of times the connection is fetched
 
-Ops == [k : {"h_query", "h_delete", "ev_append", "ev_query", "tk_append", "tk_get", "st_get_state", "st_clear"}, a : {"-"}, v : {0}]
+Ops == [k : {"h_query", "h_delete", "ev_append", "ev_query", "tk_append", "tk_get", "st_get_state", "st_clear", "st_seed"}, a : {"-"}, v : {0}]
        \cup [k : {"h_upsert"}, a : Statuses, v : {0}]
        \cup [k : {"st_get"}, a : Keys, v : {0}]
        \cup [k : {"st_set", "st_set_state"}, a : Keys, v : Vals]
@@ -67,6 +71,7 @@ ShareStep(op) ==
   ELSE IF ~IsState(op) THEN [d |-> Sem(op, dS).d, r |-> Sem(op, dS).r, c |-> "open"]
   ELSE IF ~Dev_StateStoreClosesShared THEN [d |-> Sem(op, dS).d, r |-> Sem(op, dS).r, c |-> "open"]
   ELSE IF Uses(op) = 1 THEN [d |-> Sem(op, dS).d, r |-> Sem(op, dS).r, c |-> "closed"]
+  ELSE IF op.k = "st_seed" THEN [d |-> dS, r |-> "error", c |-> "closed"]     \* the copy closed it; the load fails
   ELSE \* set: the load half ran (default row created) and closed the connection; the save half fails
        [d |-> [dS EXCEPT !.row = TRUE], r |-> "error", c |-> "closed"]
 
